@@ -104,3 +104,19 @@ func zzC02_options() {
 		symAssert(asc, "option numbers never decrease")
 	}
 }
+
+// the reserved option-length nibble 15 is a message format error for every delta nibble - also when enough bytes
+// follow for it to be mistaken for a literal length of 15 (a case that byte strings of the other harnesses' lengths
+// cannot reach: it needs 15 value bytes behind the header)
+func zzC02_options_reserved_length() {
+	first := symU8("first")
+	symAssume(first&0x0f == 0x0f && first>>4 != 0x0f)
+	rest := symBytes("rest", 19)
+	data := append([]byte{first}, rest...)
+	out := make(Options, 0, 4)
+	_, err := out.Unmarshal(data, map[OptionID]OptionDef{})
+	symCover("reserved-length-nibble")
+	symAssert(err != nil, "an option header with the reserved length nibble 15 is refused")
+	ok, _, _ := zzRefOptions(data)
+	symAssert(!ok, "and the reference refuses it too")
+}
